@@ -302,6 +302,29 @@ def reenable_in_handler_case():
         link.rig.stop()
 
 
+def queued_at_link_loss_case():
+    """Two messages arrive; the handler of the first is still running (the second is queued behind it) when the peer closes.  Then the
+    peer connects again and sends a third.  Every one of them was received completely while the session was SELECTED."""
+    link = Link()
+    link.up()
+    first, second, third = (0x7201, 7201), (0x7202, 7202), (0x7203, 7203)
+    try:
+        link.slow = 0.5
+        link.rig.conn.feed(link.reply_frame(*first) + link.reply_frame(*second))
+        time.sleep(0.15)                       # the first handler is running, the second message is queued behind it
+        link.slow = 0.0
+        link.down()
+        link.up()
+        link.rig.conn.feed(link.reply_frame(*third))
+        deadline = time.monotonic() + 5
+        while time.monotonic() < deadline and len(link.app) < 3:
+            time.sleep(0.005)
+        link.rig.settle()
+        return {"sent": [first, second, third], "delivered": list(link.app), "queued_when_the_link_was_lost": second}
+    finally:
+        link.rig.stop()
+
+
 def stale_queue_case(link):
     """A Linktest.req of ours that is never answered (T6 runs out); later a data message arrives that happens to carry the same
     system bytes: it is an ordinary inbound message and must reach the application."""
@@ -556,6 +579,14 @@ def run(tier, replay=None):
             if re["delivered"] != re["expected"] or re["overlapping_callbacks"] or re["select_rsp_for"] != [0x200] or re["dispatcher_threads"] > 1:
                 report.violation({"kind": "counterexample", "what": "a handler that takes the endpoint down and up again (disable(), enable()) and keeps running: the messages of the next connection "
                                   "were not handed to the application once, in order, one at a time after it, or the Select.req was not answered", **re}, True, tag="reenable")
+            ql = queued_at_link_loss_case()
+            cov["queued_at_link_loss"] = ql
+            known = {e["id"]: e for e in common.known_findings("C06") if e.get("status") == "open"}
+            if ql["delivered"] != ql["sent"]:
+                if ql["delivered"] == [ql["sent"][0], ql["sent"][2]] and "C06-queued-at-link-loss" in known:
+                    report.known(f"C06-queued-at-link-loss: {known['C06-queued-at-link-loss']['text']} (sent {ql['sent']}, delivered {ql['delivered']})")
+                else:
+                    report.violation({"kind": "counterexample", "what": "messages received completely before / after a link loss were not handed to the application exactly once, in order", **ql}, True, tag="linkloss")
             late = timed_out_request_case(link)
             cov["after_timed_out_request"] = late
             if not late["request_returned"] or (late.get("system") is not None and late.get("delivered") != late.get("sent")):
